@@ -32,3 +32,35 @@ contract(
     },
     props=["C19"],
 )
+
+# ---- info -sf FILE (C19): ONE iteration of the loop over the generations, non-verbose branch: a generation without a
+# record for the path prints nothing; otherwise one line per recorded digest, in entry order, with generation number,
+# creation date, format, digest and action exactly as recorded
+MHF = "hash_list.media_hashes_path_map.get(relative_path)"
+LINE2 = (
+    "'  Generation ' + str_of_optint(hash_list.generation_number) + ' (' + str_of_optstr(hash_list.creator_info.creation_date) + ') '"
+    " + {e}.hash_format + ': ' + {e}.hash_string + ' (' + str_of_optstr({e}.action) + ')'"
+)
+contract(
+    "ascmhl.commands.info_for_single_file",
+    params={"root_path": "str", "verbose": "bool", "single_file": "list[str]"},
+    body_of_loop=1,
+    locals={"hash_list": "MHLHashList", "relative_path": "str", "existing_history": "MHLHistory", "path": "str"},
+    requires=["not logger_verbose()", "hash_list.creator_info is not None"],
+    logs=True,
+    ensures=[
+        "all(out[j] == old(out)[j] for j in range(len(old(out))))",
+        f"{MHF} is not None or len(out) == len(old(out))",
+        f"{MHF} is None or len(out) == len(old(out)) + len({MHF}.hash_entries)",
+        f"{MHF} is None or all(out[len(old(out)) + j] == " + LINE2.format(e=f"{MHF}.hash_entries[j]") + f" for j in range(len({MHF}.hash_entries)))",
+    ],
+    loops={
+        2: Loop(invariant=[
+            "len(out) == len(old(out)) + _i",
+            "all(out[j] == old(out)[j] for j in range(len(old(out))))",
+            "all(out[len(old(out)) + j] == " + LINE2.format(e="_seq[j]") + " for j in range(_i))",
+            f"media_hash is not None and media_hash == {MHF} and _seq == media_hash.hash_entries",
+        ]),
+    },
+    props=["C19"],
+)
